@@ -1,6 +1,7 @@
 import Driver.Basic
 import Driver.Levels
 import Driver.CodecSuite
+import Driver.DBSuite
 
 open Driver in
 def main (args : List String) : IO UInt32 := do
@@ -13,4 +14,5 @@ def main (args : List String) : IO UInt32 := do
   | ["wm"] => loop stdin stdout wmStep Watermark.init; pure 0
   | ["levels"] => loop stdin stdout levelsStep lvInit; pure 0
   | ["codec"] => loop stdin stdout codecStep (); pure 0
+  | ["db"] => loop stdin stdout dbStep dbInit; pure 0
   | _ => IO.eprintln "usage: driver <suite>"; pure 2
